@@ -1,78 +1,1786 @@
-use std::{sync::Arc, time::Duration};
+//! C16 — QUIC streams and datagrams: ordered, exactly-once, never stranded.
+//!
+//! Real compio-quic client + server endpoints over UDP loopback inside ONE compio runtime.
+//!
+//! Two case families (first word of every line):
+//!
+//! `T` transfer cases: `T conn <transport>` then any number of CONCURRENT `T uni|bi|dgram …` activities,
+//!     then `T end`. Every stream line names its payload (len, seed), the writer's API + chunking, the
+//!     reader's API + buffer size and the reader's pacing. Output: byte count + FNV-1a of what the READER got,
+//!     end-of-stream seen after `finish`, end-of-stream again on a second read.
+//! `C` close/event cases: `C conn …`, `C stream k …` (pre-established streams), `C pend side kind [k]`
+//!     (a task whose future must be observed `Pending`), `C act side what …` (something that makes quinn-proto
+//!     emit one event at the peer; output = which pending futures completed and how), `C close side how`
+//!     (output = how every still-pending future completed, and which did not within the watchdog).
+//!
+//! Monitors (implementation only): `C16:stream-mismatch`, `C16:read-contract`, `C16:eos`,
+//! `C16:dgram-corrupt`, `C16:dgram-dup`, `C16:stranded-future` (with `kind=…`),
+//! `F160:accepted-0rtt-waker-overwritten`, `F161:closed-cancel-kills-worker`, `F162:closed-twice-panic`.
 
-use compio_quic::{ClientBuilder, ClientConfig, Endpoint, ServerBuilder, ServerConfig, TransportConfig};
-use compio_runtime::time::{sleep, timeout};
+use std::{
+    any::Any,
+    cell::{Cell, RefCell},
+    collections::{BTreeMap, HashMap, HashSet},
+    future::{Future, poll_fn},
+    pin::Pin,
+    rc::Rc,
+    sync::Arc,
+    task::{Context, Poll, Waker},
+    time::Duration,
+};
 
-fn config_pair(transport: Option<TransportConfig>) -> (ServerConfig, ClientConfig) {
+use compio_buf::{BufResult, bytes::Bytes};
+use compio_io::{AsyncRead, AsyncWrite, AsyncWriteExt};
+use compio_quic::{
+    ClientBuilder, ClientConfig, Connecting, Connection, ConnectionError, Endpoint, ReadError, RecvStream,
+    SendStream, ServerBuilder, ServerConfig, StoppedError, TransportConfig, VarInt, WriteError,
+};
+use compio_runtime::{
+    JoinHandle,
+    time::{sleep, timeout},
+};
+use hx_common::{Case, Exec, Rng, run_harness};
+
+// ------------------------------------------------------------------------------------------- plumbing
+
+fn configs(server_t: TransportConfig, client_t: TransportConfig) -> (ServerConfig, ClientConfig) {
     let rcgen::CertifiedKey { cert, signing_key } =
         rcgen::generate_simple_self_signed(vec!["localhost".into()]).unwrap();
     let cert = cert.der().clone();
     let key_der = signing_key.serialize_der().try_into().unwrap();
-    let mut server_config = ServerBuilder::new_with_single_cert(vec![cert.clone()], key_der)
-        .unwrap()
-        .build();
-    let mut client_config = ClientBuilder::new_with_empty_roots()
+    let mut sc = ServerBuilder::new_with_single_cert(vec![cert.clone()], key_der).unwrap().build();
+    let mut cc = ClientBuilder::new_with_empty_roots()
         .with_custom_certificate(cert)
         .unwrap()
         .with_no_crls()
         .build();
-    if let Some(transport) = transport {
-        let transport = Arc::new(transport);
-        server_config.transport_config(transport.clone());
-        client_config.transport_config(transport);
+    sc.transport_config(Arc::new(server_t));
+    cc.transport_config(Arc::new(client_t));
+    (sc, cc)
+}
+
+#[derive(Default)]
+struct Notify {
+    waker: RefCell<Option<Waker>>,
+}
+
+impl Notify {
+    fn notify(&self) {
+        if let Some(w) = self.waker.borrow_mut().take() {
+            w.wake()
+        }
     }
-    (server_config, client_config)
+
+    /// wait until `cond()` holds (re-evaluated at every `notify`), at most `dur`
+    async fn wait_until(&self, mut cond: impl FnMut() -> bool, dur: Duration) -> bool {
+        let fut = poll_fn(|cx| {
+            if cond() {
+                Poll::Ready(())
+            } else {
+                *self.waker.borrow_mut() = Some(cx.waker().clone());
+                Poll::Pending
+            }
+        });
+        timeout(dur, fut).await.is_ok()
+    }
+}
+
+/// records the first `Pending` of the wrapped future
+struct Probe<F> {
+    inner: Pin<Box<F>>,
+    seen: Rc<Cell<bool>>,
+    notify: Rc<Notify>,
+}
+
+impl<F: Future> Future for Probe<F> {
+    type Output = F::Output;
+
+    fn poll(mut self: Pin<&mut Self>, cx: &mut Context<'_>) -> Poll<F::Output> {
+        match self.inner.as_mut().poll(cx) {
+            Poll::Pending => {
+                if !self.seen.get() {
+                    self.seen.set(true);
+                    self.notify.notify();
+                }
+                Poll::Pending
+            }
+            r => r,
+        }
+    }
+}
+
+fn probe<F: Future>(f: F, seen: &Rc<Cell<bool>>, notify: &Rc<Notify>) -> Probe<F> {
+    Probe { inner: Box::pin(f), seen: seen.clone(), notify: notify.clone() }
+}
+
+fn payload(seed: u64, len: usize) -> Vec<u8> {
+    (0..len)
+        .map(|i| {
+            let x = (seed as u32).wrapping_add(i as u32).wrapping_mul(2654435761);
+            (x >> 13) as u8
+        })
+        .collect()
+}
+
+fn fnv(data: &[u8]) -> u32 {
+    let mut h: u32 = 0x811c_9dc5;
+    for b in data {
+        h ^= *b as u32;
+        h = h.wrapping_mul(0x0100_0193);
+    }
+    h
+}
+
+fn conn_err(e: &ConnectionError) -> &'static str {
+    match e {
+        ConnectionError::VersionMismatch => "VersionMismatch",
+        ConnectionError::TransportError(_) => "TransportError",
+        ConnectionError::ConnectionClosed(_) => "ConnectionClosed",
+        ConnectionError::ApplicationClosed(_) => "ApplicationClosed",
+        ConnectionError::Reset => "Reset",
+        ConnectionError::TimedOut => "TimedOut",
+        ConnectionError::LocallyClosed => "LocallyClosed",
+        ConnectionError::CidsExhausted => "CidsExhausted",
+    }
+}
+
+fn read_err(e: &ReadError) -> String {
+    match e {
+        ReadError::Reset(_) => "err:StreamReset".into(),
+        ReadError::ConnectionLost(e) => format!("err:{}", conn_err(e)),
+        ReadError::ClosedStream => "err:ClosedStream".into(),
+        ReadError::IllegalOrderedRead => "err:IllegalOrderedRead".into(),
+        ReadError::ZeroRttRejected => "err:ZeroRttRejected".into(),
+    }
+}
+
+fn write_err(e: &WriteError) -> String {
+    match e {
+        WriteError::Stopped(_) => "err:Stopped".into(),
+        WriteError::ConnectionLost(e) => format!("err:{}", conn_err(e)),
+        WriteError::ClosedStream => "err:ClosedStream".into(),
+        WriteError::ZeroRttRejected => "err:ZeroRttRejected".into(),
+    }
+}
+
+fn kv(words: &[&str], key: &str) -> Option<String> {
+    words.iter().find_map(|w| w.strip_prefix(key).and_then(|r| r.strip_prefix('=')).map(|s| s.to_string()))
+}
+
+fn kvn(words: &[&str], key: &str, default: u64) -> u64 {
+    kv(words, key).and_then(|s| s.parse().ok()).unwrap_or(default)
+}
+
+struct Pair {
+    eps: [Endpoint; 2], // 0 = client, 1 = server
+    conns: [Connection; 2],
+}
+
+async fn establish(server_t: TransportConfig, client_t: TransportConfig) -> Result<Pair, String> {
+    let (sc, cc) = configs(server_t, client_t);
+    let mut server = Endpoint::server("127.0.0.1:0", sc).await.map_err(|e| format!("bind: {e}"))?;
+    let mut client = Endpoint::client("127.0.0.1:0").await.map_err(|e| format!("bind: {e}"))?;
+    server.default_client_config = Some(cc.clone());
+    client.default_client_config = Some(cc);
+    let addr = server.local_addr().unwrap();
+    let connecting = client.connect(addr, "localhost", None).map_err(|e| format!("connect: {e}"))?;
+    let sconn = async {
+        let inc = server.wait_incoming().await.ok_or("no incoming")?;
+        inc.await.map_err(|e| format!("accept: {e}"))
+    };
+    let (c, s) = futures_util::join!(timeout(Duration::from_secs(10), connecting), timeout(Duration::from_secs(10), sconn));
+    let c = c.map_err(|_| "connect timeout")?.map_err(|e| format!("connect: {e}"))?;
+    let s = s.map_err(|_| "accept timeout")??;
+    Ok(Pair { eps: [client, server], conns: [c, s] })
+}
+
+fn retire(eps: Vec<Endpoint>) {
+    for ep in eps {
+        ep.close(0u32.into(), b"");
+        compio_runtime::spawn(async move {
+            let _ = timeout(Duration::from_secs(5), ep.shutdown()).await;
+        })
+        .detach();
+    }
+}
+
+type Fails = Rc<RefCell<Vec<(String, String)>>>;
+
+// ------------------------------------------------------------------------------------------- T cases
+
+#[derive(Clone, Debug)]
+struct StreamSpec {
+    len: usize,
+    seed: u64,
+    w: String,
+    r: String,
+    slow: usize,
+}
+
+fn stream_spec(words: &[&str], prefix: &str) -> StreamSpec {
+    StreamSpec {
+        len: kvn(words, &format!("{prefix}len"), 0) as usize,
+        seed: kvn(words, &format!("{prefix}seed"), 0),
+        w: kv(words, &format!("{prefix}w")).unwrap_or_else(|| "all:1000".into()),
+        r: kv(words, &format!("{prefix}r")).unwrap_or_else(|| "read:1000".into()),
+        slow: kvn(words, &format!("{prefix}slow"), 0) as usize,
+    }
+}
+
+async fn write_stream(s: &mut SendStream, data: &[u8], mode: &str) -> Result<(), String> {
+    let parts: Vec<&str> = mode.split(':').collect();
+    let c = parts.get(1).and_then(|x| x.parse::<usize>().ok()).unwrap_or(1000).max(1);
+    let k = parts.get(2).and_then(|x| x.parse::<usize>().ok()).unwrap_or(4).max(1);
+    match parts[0] {
+        "write" => {
+            for piece in data.chunks(c) {
+                let mut off = 0;
+                while off < piece.len() {
+                    let BufResult(r, _) = s.write(piece[off..].to_vec()).await;
+                    let n = r.map_err(|e| format!("write:{e}"))?;
+                    if n == 0 || n > piece.len() - off {
+                        return Err(format!("write returned {n} for {} bytes", piece.len() - off));
+                    }
+                    off += n;
+                }
+            }
+        }
+        "all" => {
+            for piece in data.chunks(c) {
+                let BufResult(r, _) = s.write_all(piece.to_vec()).await;
+                r.map_err(|e| format!("write_all:{e}"))?;
+            }
+        }
+        "chunks" => {
+            let pieces: Vec<&[u8]> = data.chunks(c).collect();
+            for group in pieces.chunks(k) {
+                let mut bufs: Vec<Bytes> = group.iter().map(|p| Bytes::copy_from_slice(p)).collect();
+                s.write_all_chunks(&mut bufs).await.map_err(|e| write_err(&e))?;
+            }
+        }
+        "wchunks" => {
+            let pieces: Vec<&[u8]> = data.chunks(c).collect();
+            for group in pieces.chunks(k) {
+                let mut bufs: Vec<Bytes> = group.iter().map(|p| Bytes::copy_from_slice(p)).collect();
+                let mut done = 0;
+                while done < bufs.len() {
+                    let w = s.write_chunks(&mut bufs[done..]).await.map_err(|e| write_err(&e))?;
+                    if w.chunks == 0 && w.bytes == 0 {
+                        return Err("write_chunks made no progress".into());
+                    }
+                    done += w.chunks;
+                }
+            }
+        }
+        other => return Err(format!("bad write mode {other}")),
+    }
+    Ok(())
+}
+
+struct ReadOutcome {
+    data: Vec<u8>,
+    eos: bool,
+    post_eos: bool,
+    contract: Option<String>,
+}
+
+async fn read_stream(r: &mut RecvStream, mode: &str, slow: usize) -> Result<ReadOutcome, String> {
+    let parts: Vec<&str> = mode.split(':').collect();
+    let p = parts.get(1).and_then(|x| x.parse::<usize>().ok()).unwrap_or(1000).max(1);
+    let mut out = ReadOutcome { data: vec![], eos: false, post_eos: false, contract: None };
+    let mut reads = 0usize;
+    macro_rules! pace {
+        () => {
+            reads += 1;
+            if slow > 0 && reads % slow == 0 {
+                sleep(Duration::from_millis(1)).await;
+            }
+        };
+    }
+    match parts[0] {
+        "read" => loop {
+            let buf = Vec::with_capacity(p);
+            let cap = buf.capacity();
+            let BufResult(res, buf) = r.read(buf).await;
+            let n = res.map_err(|e| format!("read:{e}"))?;
+            if n == 0 {
+                out.eos = true;
+                break;
+            }
+            if n > cap || buf.len() != n {
+                out.contract = Some(format!("read returned {n} (len {}) into a {cap}-byte buffer", buf.len()));
+            }
+            out.data.extend_from_slice(&buf[..n.min(buf.len())]);
+            pace!();
+        },
+        "chunk" => loop {
+            match r.read_chunk(p, true).await.map_err(|e| read_err(&e))? {
+                None => {
+                    out.eos = true;
+                    break;
+                }
+                Some(ch) => {
+                    if ch.bytes.is_empty() || ch.bytes.len() > p || ch.offset != out.data.len() as u64 {
+                        out.contract = Some(format!(
+                            "read_chunk({p}) gave {} bytes at offset {} after {} bytes",
+                            ch.bytes.len(),
+                            ch.offset,
+                            out.data.len()
+                        ));
+                    }
+                    out.data.extend_from_slice(&ch.bytes);
+                }
+            }
+            pace!();
+        },
+        "chunks" => loop {
+            let mut bufs: Vec<Bytes> = (0..p).map(|_| Bytes::new()).collect();
+            match r.read_chunks(&mut bufs).await.map_err(|e| read_err(&e))? {
+                None => {
+                    out.eos = true;
+                    break;
+                }
+                Some(n) => {
+                    if n == 0 || n > p {
+                        out.contract = Some(format!("read_chunks gave {n} of {p} buffers"));
+                    }
+                    for b in &bufs[..n.min(p)] {
+                        if b.is_empty() {
+                            out.contract = Some("read_chunks gave an empty chunk".into());
+                        }
+                        out.data.extend_from_slice(b);
+                    }
+                }
+            }
+            pace!();
+        },
+        "end" => {
+            let BufResult(res, buf) = r.read_to_end(Vec::new()).await;
+            let n = res.map_err(|e| format!("read_to_end:{e}"))?;
+            if n != buf.len() {
+                out.contract = Some(format!("read_to_end returned {n}, buffer holds {}", buf.len()));
+            }
+            out.data = buf;
+            out.eos = true;
+        }
+        other => return Err(format!("bad read mode {other}")),
+    }
+    // end-of-stream is sticky
+    let BufResult(res, _) = r.read(Vec::with_capacity(8)).await;
+    out.post_eos = matches!(res, Ok(0));
+    Ok(out)
+}
+
+type Registry = Rc<RefCell<HashMap<(usize, bool, u64), usize>>>; // (opener side, is_bi, stream index) -> line
+
+struct TCtx {
+    conns: [Connection; 2],
+    registry: Registry,
+    /// per line: [primary direction outcome, reverse direction outcome]
+    results: Rc<RefCell<Vec<[Option<String>; 2]>>>,
+    specs: Rc<Vec<Option<(String, usize, StreamSpec, Option<StreamSpec>)>>>, // kind, opener side, spec, echo spec
+    fails: Fails,
+    notify: Rc<Notify>,
+    live: Rc<Cell<usize>>,
+}
+
+async fn reader_task(ctx: Rc<TCtx>, line: usize, slot: usize, mut r: RecvStream, spec: StreamSpec) {
+    let res = read_stream(&mut r, &spec.r, spec.slow).await;
+    let text = match res {
+        Ok(o) => {
+            let want = payload(spec.seed, spec.len);
+            if o.data != want {
+                let first = o.data.iter().zip(&want).position(|(a, b)| a != b).unwrap_or(o.data.len().min(want.len()));
+                ctx.fails.borrow_mut().push((
+                    "C16:stream-mismatch".into(),
+                    format!("line {line}: got {} bytes, sent {}, first difference at {first}", o.data.len(), want.len()),
+                ));
+            }
+            if let Some(c) = &o.contract {
+                ctx.fails.borrow_mut().push(("C16:read-contract".into(), format!("line {line}: {c}")));
+            }
+            if !o.eos || !o.post_eos {
+                ctx.fails.borrow_mut().push((
+                    "C16:eos".into(),
+                    format!("line {line}: eos={} second read eos={}", o.eos, o.post_eos),
+                ));
+            }
+            format!(
+                "bytes={} sum={:08x} eos={} post={}",
+                o.data.len(),
+                fnv(&o.data),
+                o.eos as u8,
+                if o.post_eos { "eos" } else { "data" }
+            )
+        }
+        Err(e) => format!("error:{e}"),
+    };
+    ctx.results.borrow_mut()[line][slot] = Some(text);
+    ctx.live.set(ctx.live.get() - 1);
+    ctx.notify.notify();
+    drop(r);
+}
+
+async fn writer_half(mut s: SendStream, spec: StreamSpec) -> Result<(), String> {
+    let data = payload(spec.seed, spec.len);
+    write_stream(&mut s, &data, &spec.w).await?;
+    s.finish().map_err(|_| "finish: closed stream".to_string())?;
+    match s.stopped().await {
+        Ok(None) => Ok(()),
+        Ok(Some(c)) => Err(format!("stopped({c})")),
+        Err(StoppedError::ConnectionLost(e)) => Err(format!("stopped:{}", conn_err(&e))),
+        Err(e) => Err(format!("stopped:{e}")),
+    }
+}
+
+async fn run_transfer(lines: &[String], ex: &mut Exec) -> Vec<String> {
+    let n = lines.len();
+    let mut out: Vec<String> = vec![String::new(); n];
+    let words: Vec<Vec<&str>> = lines.iter().map(|l| l.split_whitespace().collect()).collect();
+    // --- transport
+    let w0 = &words[0];
+    if w0.get(1) != Some(&"conn") {
+        return vec!["bad-op".into(); n];
+    }
+    let mk = |uni: u64, bi: u64| {
+        let mut t = TransportConfig::default();
+        t.stream_receive_window(VarInt::from_u64(kvn(w0, "srw", 1_250_000)).unwrap());
+        t.receive_window(VarInt::from_u64(kvn(w0, "rw", 10_000_000)).unwrap());
+        t.send_window(kvn(w0, "sw", 10_000_000));
+        t.max_concurrent_uni_streams(VarInt::from_u64(uni).unwrap());
+        t.max_concurrent_bidi_streams(VarInt::from_u64(bi).unwrap());
+        t.datagram_receive_buffer_size(Some(kvn(w0, "dgrb", 1_000_000) as usize));
+        t.datagram_send_buffer_size(kvn(w0, "dgsb", 1_000_000) as usize);
+        t
+    };
+    let (uni, bi) = (kvn(w0, "uni", 100), kvn(w0, "bi", 100));
+    let pair = match establish(mk(uni, bi), mk(uni, bi)).await {
+        Ok(p) => p,
+        Err(e) => {
+            out[0] = format!("error:{e}");
+            for o in out.iter_mut().skip(1) {
+                *o = "skipped".into();
+            }
+            return out;
+        }
+    };
+    out[0] = "ok".into();
+    let Pair { eps, conns } = pair;
+    // --- parse activities
+    let mut specs: Vec<Option<(String, usize, StreamSpec, Option<StreamSpec>)>> = vec![None; n];
+    let mut dgrams: Vec<(usize, usize, usize, usize, u64, bool)> = vec![]; // line, from side, count, size, seed, wait
+    let mut incoming = [[0usize; 2]; 2]; // [side][is_bi] streams to accept
+    for (i, w) in words.iter().enumerate().skip(1) {
+        let side = match w.get(2) {
+            Some(&"c2s") => 0,
+            Some(&"s2c") => 1,
+            _ => 0,
+        };
+        match w.get(1) {
+            Some(&"uni") => {
+                specs[i] = Some(("uni".into(), side, stream_spec(w, ""), None));
+                incoming[1 - side][0] += 1;
+            }
+            Some(&"bi") => {
+                specs[i] = Some(("bi".into(), side, stream_spec(w, ""), Some(stream_spec(w, "e"))));
+                incoming[1 - side][1] += 1;
+            }
+            Some(&"dgram") => dgrams.push((
+                i,
+                side,
+                kvn(w, "count", 1) as usize,
+                kvn(w, "size", 16).max(8) as usize,
+                kvn(w, "seed", 0),
+                kvn(w, "wait", 1) == 1,
+            )),
+            Some(&"end") => {}
+            _ => out[i] = "bad-op".into(),
+        }
+    }
+    let fails: Fails = Rc::new(RefCell::new(vec![]));
+    let ctx = Rc::new(TCtx {
+        conns: conns.clone(),
+        registry: Rc::new(RefCell::new(HashMap::new())),
+        results: Rc::new(RefCell::new(vec![[None, None]; n])),
+        specs: Rc::new(specs.clone()),
+        fails: fails.clone(),
+        notify: Rc::new(Notify::default()),
+        live: Rc::new(Cell::new(0)),
+    });
+    let mut handles: Vec<JoinHandle<()>> = vec![];
+    // --- acceptors
+    for side in 0..2 {
+        for is_bi in [false, true] {
+            let count = incoming[side][is_bi as usize];
+            if count == 0 {
+                continue;
+            }
+            ctx.live.set(ctx.live.get() + 1);
+            let ctx2 = ctx.clone();
+            handles.push(compio_runtime::spawn(async move {
+                let conn = ctx2.conns[side].clone();
+                for _ in 0..count {
+                    let (s, r) = if is_bi {
+                        match conn.accept_bi().await {
+                            Ok((s, r)) => (Some(s), r),
+                            Err(_) => break,
+                        }
+                    } else {
+                        match conn.accept_uni().await {
+                            Ok(r) => (None, r),
+                            Err(_) => break,
+                        }
+                    };
+                    let key = (1 - side, is_bi, r.id().index());
+                    let line = ctx2.registry.borrow().get(&key).copied();
+                    let Some(line) = line else {
+                        ctx2.fails.borrow_mut().push(("C16:stream-mismatch".into(), format!("accepted unknown stream {key:?}")));
+                        continue;
+                    };
+                    let (_, _, spec, espec) = ctx2.specs[line].clone().unwrap();
+                    ctx2.live.set(ctx2.live.get() + 1);
+                    compio_runtime::spawn(reader_task(ctx2.clone(), line, 0, r, spec)).detach();
+                    if let (Some(s), Some(espec)) = (s, espec) {
+                        ctx2.live.set(ctx2.live.get() + 1);
+                        let ctx3 = ctx2.clone();
+                        compio_runtime::spawn(async move {
+                            if let Err(e) = writer_half(s, espec).await {
+                                ctx3.results.borrow_mut()[line][1].get_or_insert(format!("error:{e}"));
+                            }
+                            ctx3.live.set(ctx3.live.get() - 1);
+                            ctx3.notify.notify();
+                        })
+                        .detach();
+                    }
+                }
+                ctx2.live.set(ctx2.live.get() - 1);
+                ctx2.notify.notify();
+            }));
+        }
+    }
+    // --- openers / writers
+    for (i, sp) in specs.iter().enumerate() {
+        let Some((kind, side, spec, espec)) = sp.clone() else { continue };
+        ctx.live.set(ctx.live.get() + 1);
+        let ctx2 = ctx.clone();
+        handles.push(compio_runtime::spawn(async move {
+            let conn = ctx2.conns[side].clone();
+            let res: Result<(), String> = async {
+                if kind == "bi" {
+                    let (s, r) = conn.open_bi_wait().await.map_err(|e| format!("open:{}", conn_err(&e)))?;
+                    ctx2.registry.borrow_mut().insert((side, true, s.id().index()), i);
+                    ctx2.live.set(ctx2.live.get() + 1);
+                    compio_runtime::spawn(reader_task(ctx2.clone(), i, 1, r, espec.unwrap())).detach();
+                    writer_half(s, spec).await
+                } else {
+                    let s = conn.open_uni_wait().await.map_err(|e| format!("open:{}", conn_err(&e)))?;
+                    ctx2.registry.borrow_mut().insert((side, false, s.id().index()), i);
+                    writer_half(s, spec).await
+                }
+            }
+            .await;
+            if let Err(e) = res {
+                ctx2.results.borrow_mut()[i][0].get_or_insert(format!("error:{e}"));
+            }
+            ctx2.live.set(ctx2.live.get() - 1);
+            ctx2.notify.notify();
+        }));
+    }
+    // --- datagrams
+    let dg_expected: Rc<RefCell<[HashMap<Vec<u8>, (usize, bool)>; 2]>> = Rc::new(RefCell::new([HashMap::new(), HashMap::new()]));
+    let dg_got: Rc<RefCell<HashMap<usize, usize>>> = Rc::new(RefCell::new(HashMap::new()));
+    let dg_senders = Rc::new(Cell::new(dgrams.len()));
+    for &(line, side, count, size, seed, wait) in &dgrams {
+        let mut all = vec![];
+        for j in 0..count {
+            let mut d = vec![(line >> 8) as u8, line as u8, (j >> 8) as u8, j as u8];
+            d.extend(payload(seed + j as u64, size - 4));
+            dg_expected.borrow_mut()[1 - side].insert(d.clone(), (line, false));
+            all.push(d);
+        }
+        let conn = conns[side].clone();
+        let results = ctx.results.clone();
+        let (dg_senders, notify) = (dg_senders.clone(), ctx.notify.clone());
+        ctx.live.set(ctx.live.get() + 1);
+        let live = ctx.live.clone();
+        handles.push(compio_runtime::spawn(async move {
+            let mut status = "dgram ok".to_string();
+            for d in all {
+                let r = if wait {
+                    conn.send_datagram_wait(Bytes::from(d)).await
+                } else {
+                    conn.send_datagram(Bytes::from(d))
+                };
+                if let Err(e) = r {
+                    status = format!("error:send:{e}");
+                    break;
+                }
+            }
+            results.borrow_mut()[line][0] = Some(status);
+            dg_senders.set(dg_senders.get() - 1);
+            live.set(live.get() - 1);
+            notify.notify();
+        }));
+    }
+    let mut dg_tasks = vec![];
+    if !dgrams.is_empty() {
+        for side in 0..2 {
+            if dg_expected.borrow()[side].is_empty() {
+                continue;
+            }
+            let conn = conns[side].clone();
+            let (exp, got, fails, notify) = (dg_expected.clone(), dg_got.clone(), fails.clone(), ctx.notify.clone());
+            dg_tasks.push(compio_runtime::spawn(async move {
+                while let Ok(d) = conn.recv_datagram().await {
+                    let mut e = exp.borrow_mut();
+                    match e[side].get_mut(&d[..]) {
+                        None => fails.borrow_mut().push(("C16:dgram-corrupt".into(), format!("{} unknown bytes received", d.len()))),
+                        Some((_, true)) => fails.borrow_mut().push(("C16:dgram-dup".into(), "datagram delivered twice".into())),
+                        Some((line, seen)) => {
+                            *seen = true;
+                            *got.borrow_mut().entry(*line).or_insert(0) += 1;
+                        }
+                    }
+                    notify.notify();
+                }
+            }));
+        }
+    }
+    // --- wait for completion
+    let live = ctx.live.clone();
+    let finished = ctx.notify.wait_until(|| live.get() == 0, Duration::from_secs(30)).await;
+    if finished && !dgrams.is_empty() {
+        // datagrams are unreliable: wait for all of them, but not for long
+        let total: usize = dgrams.iter().map(|d| d.2).sum();
+        let got = dg_got.clone();
+        ctx.notify.wait_until(|| got.borrow().values().sum::<usize>() == total, Duration::from_millis(60)).await;
+    }
+    for (i, sp) in specs.iter().enumerate() {
+        let Some((kind, ..)) = sp else { continue };
+        let r = ctx.results.borrow()[i].clone();
+        let show = |x: &Option<String>| x.clone().unwrap_or_else(|| "timeout".into());
+        out[i] = if kind == "bi" { format!("{} | {}", show(&r[0]), show(&r[1])) } else { show(&r[0]) };
+        if r[0].is_none() || (kind == "bi" && r[1].is_none()) {
+            fails.borrow_mut().push(("C16:stranded-future".into(), format!("kind=transfer line {i} did not finish within 30 s")));
+        }
+    }
+    for &(line, _, count, ..) in &dgrams {
+        out[line] = ctx.results.borrow()[line][0].clone().unwrap_or_else(|| "timeout".into());
+        let got = dg_got.borrow().get(&line).copied().unwrap_or(0);
+        ex.tag(if got == count { "T:dgram-all-delivered" } else { "T:dgram-some-lost" });
+    }
+    for (i, w) in words.iter().enumerate() {
+        if w.get(1) == Some(&"end") {
+            for c in &conns {
+                c.close(0u32.into(), b"done");
+            }
+            out[i] = "ok".into();
+        }
+    }
+    for c in &conns {
+        c.close(0u32.into(), b"done");
+    }
+    for t in dg_tasks {
+        let _ = timeout(Duration::from_millis(500), t).await;
+    }
+    drop(handles);
+    for (sig, d) in fails.borrow().iter() {
+        ex.fail(sig.clone(), d.clone());
+    }
+    drop(ctx);
+    retire(eps.into_iter().collect());
+    out
+}
+
+// ------------------------------------------------------------------------------------------- C cases
+
+struct Pend {
+    line: usize,
+    side: usize,
+    kind: String,
+    sid: Option<usize>,
+    seen: Rc<Cell<bool>>,
+    result: Rc<RefCell<Option<String>>>,
+    handle: Option<JoinHandle<()>>,
+    reported: bool,
+}
+
+impl Pend {
+    fn done(&self) -> bool {
+        self.result.borrow().is_some()
+    }
+}
+
+struct CSide {
+    ep: Endpoint,
+    conn: Option<Connection>,
+    send: HashMap<usize, SendStream>,
+    recv: HashMap<usize, RecvStream>,
+}
+
+type Graveyard = Rc<RefCell<Vec<Box<dyn Any>>>>;
+
+const ACT_WATCHDOG: Duration = Duration::from_millis(1200);
+const CLOSE_WATCHDOG: Duration = Duration::from_millis(2000);
+
+fn side_of(w: &str) -> Option<usize> {
+    match w {
+        "c" => Some(0),
+        "s" => Some(1),
+        _ => None,
+    }
+}
+
+async fn run_close_case(lines: &[String], ex: &mut Exec) -> Vec<String> {
+    let n = lines.len();
+    let mut out: Vec<String> = vec!["skipped".into(); n];
+    let words: Vec<Vec<&str>> = lines.iter().map(|l| l.split_whitespace().collect()).collect();
+    let w0 = &words[0];
+    if w0.get(1) != Some(&"conn") {
+        return vec!["bad-op".into(); n];
+    }
+    let srw = kvn(w0, "srw", 4096);
+    let mk = |uni: u64, bi: u64| {
+        let mut t = TransportConfig::default();
+        t.stream_receive_window(VarInt::from_u64(srw).unwrap());
+        t.max_concurrent_uni_streams(VarInt::from_u64(uni).unwrap());
+        t.max_concurrent_bidi_streams(VarInt::from_u64(bi).unwrap());
+        t
+    };
+    // the server's limits bound what the CLIENT may open and vice versa
+    let server_t = mk(kvn(w0, "cuni", 0), kvn(w0, "cbi", 0));
+    let client_t = mk(kvn(w0, "suni", 0), kvn(w0, "sbi", 0));
+    let zero = kvn(w0, "zero", 0) == 1;
+    let notify = Rc::new(Notify::default());
+    let grave: Graveyard = Rc::new(RefCell::new(vec![]));
+    let mut pending_connecting: Option<Connecting> = None;
+    let mut sides: Vec<CSide>;
+    if zero {
+        let (sc, cc) = configs(server_t, client_t);
+        let server = Endpoint::server("127.0.0.1:0", sc).await.unwrap();
+        let mut client = Endpoint::client("127.0.0.1:0").await.unwrap();
+        client.default_client_config = Some(cc);
+        let connecting = client.connect(server.local_addr().unwrap(), "localhost", None).unwrap();
+        let inc = match timeout(Duration::from_secs(5), server.wait_incoming()).await {
+            Ok(Some(i)) => i,
+            _ => {
+                out[0] = "error:no incoming".into();
+                return out;
+            }
+        };
+        let sconn = match inc.accept().map(|c| c.into_0rtt()) {
+            Ok(Ok(c)) => c,
+            _ => {
+                out[0] = "error:into_0rtt".into();
+                return out;
+            }
+        };
+        pending_connecting = Some(connecting);
+        sides = vec![
+            CSide { ep: client, conn: None, send: HashMap::new(), recv: HashMap::new() },
+            CSide { ep: server, conn: Some(sconn), send: HashMap::new(), recv: HashMap::new() },
+        ];
+    } else {
+        match establish(server_t, client_t).await {
+            Ok(Pair { eps, conns }) => {
+                let [ce, se] = eps;
+                let [cc, sc] = conns;
+                sides = vec![
+                    CSide { ep: ce, conn: Some(cc), send: HashMap::new(), recv: HashMap::new() },
+                    CSide { ep: se, conn: Some(sc), send: HashMap::new(), recv: HashMap::new() },
+                ];
+            }
+            Err(e) => {
+                out[0] = format!("error:{e}");
+                return out;
+            }
+        }
+    }
+    out[0] = "ok".into();
+    let mut pends: Vec<Pend> = vec![];
+    let mut cancelled_closed = false;
+    let mut fails: Vec<(String, String)> = vec![];
+
+    // classification of a future that did not complete although the property requires it
+    let classify = |p: &Pend, pends: &[Pend], cancelled_closed: bool| -> &'static str {
+        if cancelled_closed {
+            "F161:closed-cancel-kills-worker"
+        } else if p.kind == "accepted_0rtt"
+            && pends.iter().filter(|q| q.kind == "accepted_0rtt" && q.side == p.side).count() >= 2
+        {
+            "F160:accepted-0rtt-waker-overwritten"
+        } else {
+            "C16:stranded-future"
+        }
+    };
+
+    for i in 1..n {
+        let w = &words[i];
+        match w.get(1).copied() {
+            Some("stream") => {
+                let (Some(k), Some(side), Some(kind)) =
+                    (w.get(2).and_then(|x| x.parse::<usize>().ok()), w.get(3).and_then(|x| side_of(x)), w.get(4).copied())
+                else {
+                    out[i] = "bad-op".into();
+                    continue;
+                };
+                let (Some(oc), Some(ac)) = (sides[side].conn.clone(), sides[1 - side].conn.clone()) else {
+                    out[i] = "bad-op".into();
+                    continue;
+                };
+                let r: Result<(), String> = timeout(Duration::from_secs(5), async {
+                    if kind == "bi" {
+                        let (mut s, r) = oc.open_bi_wait().await.map_err(|e| conn_err(&e).to_string())?;
+                        s.write_all(vec![k as u8]).await.0.map_err(|e| e.to_string())?;
+                        let (s2, mut r2) = ac.accept_bi().await.map_err(|e| conn_err(&e).to_string())?;
+                        let BufResult(res, _) = r2.read(Vec::with_capacity(1)).await;
+                        res.map_err(|e| e.to_string())?;
+                        sides[side].send.insert(k, s);
+                        sides[side].recv.insert(k, r);
+                        sides[1 - side].send.insert(k, s2);
+                        sides[1 - side].recv.insert(k, r2);
+                    } else {
+                        let mut s = oc.open_uni_wait().await.map_err(|e| conn_err(&e).to_string())?;
+                        s.write_all(vec![k as u8]).await.0.map_err(|e| e.to_string())?;
+                        let mut r2 = ac.accept_uni().await.map_err(|e| conn_err(&e).to_string())?;
+                        let BufResult(res, _) = r2.read(Vec::with_capacity(1)).await;
+                        res.map_err(|e| e.to_string())?;
+                        sides[side].send.insert(k, s);
+                        sides[1 - side].recv.insert(k, r2);
+                    }
+                    Ok(())
+                })
+                .await
+                .unwrap_or_else(|_| Err("timeout".into()));
+                out[i] = match r {
+                    Ok(()) => "ok".into(),
+                    Err(e) => format!("error:{e}"),
+                };
+            }
+            Some("pend") => {
+                let (Some(side), Some(kind)) = (w.get(2).and_then(|x| side_of(x)), w.get(3).copied()) else {
+                    out[i] = "bad-op".into();
+                    continue;
+                };
+                let sid = w.get(4).and_then(|x| x.parse::<usize>().ok());
+                let seen = Rc::new(Cell::new(false));
+                let result: Rc<RefCell<Option<String>>> = Rc::new(RefCell::new(None));
+                let (seen2, result2, notify2, grave2) = (seen.clone(), result.clone(), notify.clone(), grave.clone());
+                let conn = sides[side].conn.clone();
+                let finish = move |r: String| {
+                    *result2.borrow_mut() = Some(r);
+                    notify2.notify();
+                };
+                let handle: Option<JoinHandle<()>> = match kind {
+                    "read" | "reset" => sid.and_then(|k| sides[side].recv.remove(&k)).map(|mut r| {
+                        let notify = notify.clone();
+                        let kind = kind.to_string();
+                        compio_runtime::spawn(async move {
+                            let res = if kind == "read" {
+                                let BufResult(res, _) = probe(r.read(Vec::with_capacity(64)), &seen2, &notify).await;
+                                match res {
+                                    Ok(0) => "ok:eos".to_string(),
+                                    Ok(_) => "ok:data".to_string(),
+                                    Err(e) => match e.downcast::<ReadError>() {
+                                        Ok(e) => read_err(&e),
+                                        Err(e) => format!("err:{e}"),
+                                    },
+                                }
+                            } else {
+                                match probe(r.received_reset(), &seen2, &notify).await {
+                                    Ok(Some(_)) => "ok:reset".to_string(),
+                                    Ok(None) => "ok:none".to_string(),
+                                    Err(compio_quic::ResetError::ConnectionLost(e)) => format!("err:{}", conn_err(&e)),
+                                    Err(e) => format!("err:{e}"),
+                                }
+                            };
+                            grave2.borrow_mut().push(Box::new(r));
+                            finish(res);
+                        })
+                    }),
+                    "write" | "stopped" => sid.and_then(|k| sides[side].send.remove(&k)).map(|mut s| {
+                        let notify = notify.clone();
+                        let kind = kind.to_string();
+                        compio_runtime::spawn(async move {
+                            let res = if kind == "write" {
+                                // write until one `write` future has been Pending; its result is the outcome
+                                loop {
+                                    let r = probe(s.write(vec![0x5a; 65536]), &seen2, &notify).await.0;
+                                    match r {
+                                        Ok(_) if !seen2.get() => continue,
+                                        Ok(_) => break "ok:written".to_string(),
+                                        Err(e) => {
+                                            break match e.downcast::<WriteError>() {
+                                                Ok(e) => write_err(&e),
+                                                Err(e) => format!("err:{e}"),
+                                            };
+                                        }
+                                    }
+                                }
+                            } else {
+                                match probe(s.stopped(), &seen2, &notify).await {
+                                    Ok(Some(_)) => "ok:stopped".to_string(),
+                                    Ok(None) => "ok:none".to_string(),
+                                    Err(StoppedError::ConnectionLost(e)) => format!("err:{}", conn_err(&e)),
+                                    Err(e) => format!("err:{e}"),
+                                }
+                            };
+                            grave2.borrow_mut().push(Box::new(s));
+                            finish(res);
+                        })
+                    }),
+                    "open_uni" | "open_bi" | "accept_uni" | "accept_bi" | "recv_dgram" | "closed" | "accepted_0rtt" => {
+                        conn.map(|conn| {
+                            let notify = notify.clone();
+                            let kind = kind.to_string();
+                            compio_runtime::spawn(async move {
+                                let show = |r: Result<Box<dyn Any>, ConnectionError>, grave: &Graveyard, ok: &str| match r {
+                                    Ok(x) => {
+                                        grave.borrow_mut().push(x);
+                                        ok.to_string()
+                                    }
+                                    Err(e) => format!("err:{}", conn_err(&e)),
+                                };
+                                let res = match kind.as_str() {
+                                    "open_uni" => show(
+                                        probe(conn.open_uni_wait(), &seen2, &notify).await.map(|x| Box::new(x) as Box<dyn Any>),
+                                        &grave2,
+                                        "ok:stream",
+                                    ),
+                                    "open_bi" => show(
+                                        probe(conn.open_bi_wait(), &seen2, &notify).await.map(|x| Box::new(x) as Box<dyn Any>),
+                                        &grave2,
+                                        "ok:stream",
+                                    ),
+                                    "accept_uni" => show(
+                                        probe(conn.accept_uni(), &seen2, &notify).await.map(|x| Box::new(x) as Box<dyn Any>),
+                                        &grave2,
+                                        "ok:stream",
+                                    ),
+                                    "accept_bi" => show(
+                                        probe(conn.accept_bi(), &seen2, &notify).await.map(|x| Box::new(x) as Box<dyn Any>),
+                                        &grave2,
+                                        "ok:stream",
+                                    ),
+                                    "recv_dgram" => show(
+                                        probe(conn.recv_datagram(), &seen2, &notify).await.map(|x| Box::new(x) as Box<dyn Any>),
+                                        &grave2,
+                                        "ok:dgram",
+                                    ),
+                                    "accepted_0rtt" => show(
+                                        probe(conn.accepted_0rtt(), &seen2, &notify).await.map(|x| Box::new(x) as Box<dyn Any>),
+                                        &grave2,
+                                        "ok:connected",
+                                    ),
+                                    _ => {
+                                        use futures_util::FutureExt;
+                                        let fut = std::panic::AssertUnwindSafe(probe(conn.closed(), &seen2, &notify));
+                                        match fut.catch_unwind().await {
+                                            Ok(e) => format!("err:{}", conn_err(&e)),
+                                            Err(_) => "panic".to_string(),
+                                        }
+                                    }
+                                };
+                                finish(res);
+                            })
+                        })
+                    }
+                    "connecting" | "handshake_data" => {
+                        // a connection attempt to a socket that never answers
+                        let dead = std::net::UdpSocket::bind("127.0.0.1:0").unwrap();
+                        let addr = dead.local_addr().unwrap();
+                        grave.borrow_mut().push(Box::new(dead));
+                        match sides[side].ep.connect(addr, "localhost", None) {
+                            Ok(mut c) => {
+                                let notify = notify.clone();
+                                let kind = kind.to_string();
+                                Some(compio_runtime::spawn(async move {
+                                    let res = if kind == "connecting" {
+                                        match probe(c, &seen2, &notify).await {
+                                            Ok(conn) => {
+                                                grave2.borrow_mut().push(Box::new(conn));
+                                                "ok:conn".to_string()
+                                            }
+                                            Err(e) => format!("err:{}", conn_err(&e)),
+                                        }
+                                    } else {
+                                        let r = match probe(c.handshake_data(), &seen2, &notify).await {
+                                            Ok(_) => "ok:hs".to_string(),
+                                            Err(e) => format!("err:{}", conn_err(&e)),
+                                        };
+                                        grave2.borrow_mut().push(Box::new(c));
+                                        r
+                                    };
+                                    finish(res);
+                                }))
+                            }
+                            Err(_) => None,
+                        }
+                    }
+                    "incoming" => {
+                        let ep = sides[side].ep.clone();
+                        let notify = notify.clone();
+                        Some(compio_runtime::spawn(async move {
+                            let res = match probe(ep.wait_incoming(), &seen2, &notify).await {
+                                None => "ok:none".to_string(),
+                                Some(i) => {
+                                    i.ignore();
+                                    "ok:incoming".to_string()
+                                }
+                            };
+                            finish(res);
+                        }))
+                    }
+                    _ => None,
+                };
+                let Some(handle) = handle else {
+                    out[i] = "bad-op".into();
+                    continue;
+                };
+                let p = Pend { line: i, side, kind: kind.to_string(), sid, seen, result, handle: Some(handle), reported: false };
+                // the future must be observed Pending (or finish / die at once)
+                let (s2, r2) = (p.seen.clone(), p.result.clone());
+                let h_done = || p.handle.as_ref().map(|_| false).unwrap_or(true);
+                let _ = h_done;
+                let ok = notify.wait_until(|| s2.get() || r2.borrow().is_some(), Duration::from_millis(700)).await;
+                let mut p = p;
+                if p.done() && !p.seen.get() && p.result.borrow().as_deref() == Some("panic") {
+                    out[i] = "panic".into();
+                    p.reported = true;
+                    let sig = if kind == "closed" { "F162:closed-twice-panic" } else { "C16:panic" };
+                    fails.push((sig.into(), format!("kind={kind} side={side}: the future panicked when polled")));
+                } else if p.done() && !p.seen.get() {
+                    out[i] = format!("ready:{}", p.result.borrow().clone().unwrap());
+                    p.reported = true;
+                } else if ok {
+                    out[i] = "pending".into();
+                } else {
+                    // neither pending nor finished: the task died (panic inside the future)
+                    let panicked = match p.handle.take() {
+                        Some(h) => matches!(timeout(Duration::from_millis(200), h).await, Ok(Err(_))),
+                        None => false,
+                    };
+                    if panicked {
+                        out[i] = "panic".into();
+                        p.reported = true;
+                        *p.result.borrow_mut() = Some("panic".into());
+                        let sig = if kind == "closed" { "F162:closed-twice-panic" } else { "C16:panic" };
+                        fails.push((sig.into(), format!("kind={kind} side={side}: the future panicked when polled")));
+                    } else {
+                        out[i] = "not-polled".into();
+                    }
+                }
+                pends.push(p);
+            }
+            Some("act") => {
+                let (Some(side), Some(what)) = (w.get(2).and_then(|x| side_of(x)), w.get(3).copied()) else {
+                    out[i] = "bad-op".into();
+                    continue;
+                };
+                let arg = w.get(4).copied().unwrap_or("");
+                let k = arg.parse::<usize>().ok();
+                let peer = 1 - side;
+                // (peer side, kind, stream) of the pending futures this action must complete; `any_one`: one of them
+                let mut expect: Vec<usize> = vec![];
+                let mut any_one: Option<&str> = None;
+                let mut star = false;
+                let unreported = |kind: &str, sd: usize, sid: Option<usize>, pends: &[Pend]| -> Vec<usize> {
+                    pends
+                        .iter()
+                        .enumerate()
+                        .filter(|(_, p)| !p.reported && !p.done() && p.side == sd && p.kind == kind && (sid.is_none() || p.sid == sid))
+                        .map(|(j, _)| j)
+                        .collect()
+                };
+                let performed: Result<(), String> = async {
+                    match what {
+                        "stop" => {
+                            let r = sides[side].recv.get_mut(&k.ok_or("arg")?).ok_or("no recv half")?;
+                            r.stop(7u32.into()).map_err(|_| "closed stream")?;
+                            expect.extend(unreported("stopped", peer, k, &pends));
+                            expect.extend(unreported("write", peer, k, &pends));
+                        }
+                        "reset" => {
+                            let s = sides[side].send.get_mut(&k.ok_or("arg")?).ok_or("no send half")?;
+                            s.reset(9u32.into()).map_err(|_| "closed stream")?;
+                            expect.extend(unreported("read", peer, k, &pends));
+                            expect.extend(unreported("reset", peer, k, &pends));
+                        }
+                        "finish" => {
+                            let s = sides[side].send.get_mut(&k.ok_or("arg")?).ok_or("no send half")?;
+                            s.finish().map_err(|_| "closed stream")?;
+                            expect.extend(unreported("read", peer, k, &pends));
+                        }
+                        "write" => {
+                            let s = sides[side].send.get_mut(&k.ok_or("arg")?).ok_or("no send half")?;
+                            let BufResult(r, _) = timeout(Duration::from_secs(2), s.write_all(vec![1u8, 2, 3]))
+                                .await
+                                .map_err(|_| "write timeout")?;
+                            r.map_err(|e| e.to_string())?;
+                            expect.extend(unreported("read", peer, k, &pends));
+                        }
+                        "drain" => {
+                            let r = sides[side].recv.get_mut(&k.ok_or("arg")?).ok_or("no recv half")?;
+                            // read what the blocked writer could send: the whole stream window minus the
+                            // set-up byte (a slow reader: the data may still be in flight when we start)
+                            let want = (srw as usize).saturating_sub(1);
+                            let got = timeout(Duration::from_secs(3), async {
+                                let mut got = 0usize;
+                                while got < want {
+                                    let BufResult(res, _) = r.read(Vec::with_capacity((want - got).min(16384))).await;
+                                    match res {
+                                        Ok(n) if n > 0 => got += n,
+                                        _ => break,
+                                    }
+                                }
+                                got
+                            })
+                            .await
+                            .map_err(|_| "drain timeout")?;
+                            if got != want {
+                                return Err(format!("drained {got} of {want}"));
+                            }
+                            expect.extend(unreported("write", peer, k, &pends));
+                        }
+                        "dgram" => {
+                            let c = sides[side].conn.as_ref().ok_or("no conn")?;
+                            c.send_datagram(Bytes::from_static(b"ping")).map_err(|e| e.to_string())?;
+                            if !unreported("recv_dgram", peer, None, &pends).is_empty() {
+                                any_one = Some("recv_dgram");
+                            }
+                            star = true;
+                        }
+                        "open" => {
+                            let c = sides[side].conn.clone().ok_or("no conn")?;
+                            if arg == "bi" {
+                                let (mut s, r) = timeout(Duration::from_secs(2), c.open_bi_wait())
+                                    .await
+                                    .map_err(|_| "open timeout")?
+                                    .map_err(|e| conn_err(&e).to_string())?;
+                                s.write_all(vec![0u8]).await.0.map_err(|e| e.to_string())?;
+                                grave.borrow_mut().push(Box::new((s, r)));
+                                if !unreported("accept_bi", peer, None, &pends).is_empty() {
+                                    any_one = Some("accept_bi");
+                                }
+                            } else {
+                                let mut s = timeout(Duration::from_secs(2), c.open_uni_wait())
+                                    .await
+                                    .map_err(|_| "open timeout")?
+                                    .map_err(|e| conn_err(&e).to_string())?;
+                                s.write_all(vec![0u8]).await.0.map_err(|e| e.to_string())?;
+                                grave.borrow_mut().push(Box::new(s));
+                                if !unreported("accept_uni", peer, None, &pends).is_empty() {
+                                    any_one = Some("accept_uni");
+                                }
+                            }
+                            star = true;
+                        }
+                        "limit" => {
+                            let c = sides[side].conn.as_ref().ok_or("no conn")?;
+                            if arg == "bi" {
+                                c.set_max_concurrent_bi_streams(1000u32.into());
+                                expect.extend(unreported("open_bi", peer, None, &pends));
+                            } else {
+                                c.set_max_concurrent_uni_streams(1000u32.into());
+                                expect.extend(unreported("open_uni", peer, None, &pends));
+                            }
+                        }
+                        "handshake" => {
+                            let c = pending_connecting.take().ok_or("no connecting")?;
+                            let conn = timeout(Duration::from_secs(5), c)
+                                .await
+                                .map_err(|_| "handshake timeout")?
+                                .map_err(|e| conn_err(&e).to_string())?;
+                            sides[0].conn = Some(conn);
+                            expect.extend(unreported("accepted_0rtt", 1, None, &pends));
+                        }
+                        "cancelclosed" => {
+                            let c = sides[side].conn.clone().ok_or("no conn")?;
+                            let r = timeout(Duration::from_millis(20), c.closed()).await;
+                            if r.is_ok() {
+                                return Err("closed() completed".into());
+                            }
+                            cancelled_closed = true;
+                        }
+                        _ => return Err("bad-op".into()),
+                    }
+                    Ok(())
+                }
+                .await;
+                if let Err(e) = performed {
+                    out[i] = if e == "bad-op" { e } else { format!("error:{e}") };
+                    continue;
+                }
+                // wait for what the property requires …
+                let ok = {
+                    let pr = &pends;
+                    let ex2 = expect.clone();
+                    notify
+                        .wait_until(
+                            || {
+                                ex2.iter().all(|&j| pr[j].done())
+                                    && any_one.map(|kd| pr.iter().any(|p| !p.reported && p.kind == kd && p.side == peer && p.done())).unwrap_or(true)
+                            },
+                            ACT_WATCHDOG,
+                        )
+                        .await
+                };
+                // … and a little longer for anything else that completes
+                sleep(Duration::from_millis(3)).await;
+                if !ok {
+                    for &j in &expect {
+                        if !pends[j].done() {
+                            let sig = classify(&pends[j], &pends, cancelled_closed);
+                            fails.push((
+                                sig.into(),
+                                format!("kind={} side={} after=act:{what}: still pending {} ms after the event", pends[j].kind, pends[j].side, ACT_WATCHDOG.as_millis()),
+                            ));
+                        }
+                    }
+                    if let Some(kd) = any_one {
+                        if !pends.iter().any(|p| !p.reported && p.kind == kd && p.side == peer && p.done()) {
+                            let sig = if cancelled_closed { "F161:closed-cancel-kills-worker" } else { "C16:stranded-future" };
+                            fails.push((sig.into(), format!("kind={kd} side={peer} after=act:{what}: no waiter completed")));
+                        }
+                    }
+                }
+                let mut done: Vec<String> = vec![];
+                for p in pends.iter_mut() {
+                    if !p.reported && p.done() {
+                        p.reported = true;
+                        let r = p.result.borrow().clone().unwrap();
+                        done.push(if star { format!("*:{r}") } else { format!("{}:{r}", p.line) });
+                    }
+                }
+                out[i] = format!("done=[{}]", done.join(","));
+            }
+            Some("close") => {
+                let (Some(side), Some(how)) = (w.get(2).and_then(|x| side_of(x)), w.get(3).copied()) else {
+                    out[i] = "bad-op".into();
+                    continue;
+                };
+                match how {
+                    "conn" => match &sides[side].conn {
+                        Some(c) => c.close(3u32.into(), b"bye"),
+                        None => {
+                            out[i] = "bad-op".into();
+                            continue;
+                        }
+                    },
+                    "endpoint" => sides[side].ep.close(3u32.into(), b"bye"),
+                    _ => {
+                        out[i] = "bad-op".into();
+                        continue;
+                    }
+                }
+                // every pending future of both connections must complete; futures on OTHER connections of an
+                // endpoint (connecting, handshake_data, incoming) only when that endpoint is closed
+                let must: Vec<usize> = pends
+                    .iter()
+                    .enumerate()
+                    .filter(|(_, p)| !p.reported && !p.done())
+                    .filter(|(_, p)| match p.kind.as_str() {
+                        "connecting" | "handshake_data" | "incoming" => how == "endpoint" && p.side == side,
+                        _ => true,
+                    })
+                    .map(|(j, _)| j)
+                    .collect();
+                {
+                    let pr = &pends;
+                    notify.wait_until(|| must.iter().all(|&j| pr[j].done()), CLOSE_WATCHDOG).await;
+                }
+                sleep(Duration::from_millis(3)).await;
+                let mut closed = vec![];
+                let mut stranded = vec![];
+                for (j, p) in pends.iter().enumerate() {
+                    if p.reported {
+                        continue;
+                    }
+                    if p.done() {
+                        closed.push(format!("{}:{}", p.line, p.result.borrow().clone().unwrap()));
+                    } else if must.contains(&j) {
+                        stranded.push(p.line.to_string());
+                        let sig = classify(p, &pends, cancelled_closed);
+                        fails.push((
+                            sig.into(),
+                            format!(
+                                "kind={} side={} after=close:{how}: still pending {} ms after the close",
+                                p.kind,
+                                p.side,
+                                CLOSE_WATCHDOG.as_millis()
+                            ),
+                        ));
+                    }
+                }
+                for p in pends.iter_mut() {
+                    if p.done() {
+                        p.reported = true;
+                    }
+                }
+                out[i] = format!("closed=[{}] stranded=[{}]", closed.join(","), stranded.join(","));
+            }
+            _ => out[i] = "bad-op".into(),
+        }
+    }
+    // --- tear down
+    for p in &pends {
+        ex.tag(format!("C:pend:{}", p.kind));
+    }
+    for s in &sides {
+        if let Some(c) = &s.conn {
+            c.close(0u32.into(), b"");
+        }
+    }
+    for p in pends.iter_mut() {
+        // dropping the JoinHandle cancels a task that is still pending
+        p.handle.take();
+    }
+    drop(pending_connecting);
+    let mut eps = vec![];
+    for s in sides.drain(..) {
+        let CSide { ep, conn, send, recv } = s;
+        drop(send);
+        drop(recv);
+        drop(conn);
+        eps.push(ep);
+    }
+    grave.borrow_mut().clear();
+    retire(eps);
+    for (sig, d) in fails {
+        ex.fail(sig, d);
+    }
+    out
+}
+
+// ------------------------------------------------------------------------------------------- generator
+
+fn gen_stream_params(rng: &mut Rng, big: bool) -> (usize, String, String, usize) {
+    let len = match rng.below(10) {
+        0 => 0,
+        1 => rng.range(1, 16) as usize,
+        2..=5 => rng.range(17, 3000) as usize,
+        6..=8 => rng.range(3000, 40_000) as usize,
+        _ => {
+            if big {
+                rng.range(40_000, 600_000) as usize
+            } else {
+                rng.range(40_000, 120_000) as usize
+            }
+        }
+    };
+    // keep (number of calls) x (length) small enough for the list-based Lean model
+    let min_chunk = (len / 400).max(1);
+    let chunk = |rng: &mut Rng| -> usize {
+        let c = match rng.below(6) {
+            0 => rng.range(1, 8),
+            1 => rng.range(9, 200),
+            2 => rng.range(200, 1500),
+            3 => *rng.pick(&[1200u64, 1201, 1452, 4096, 8192, 16384]),
+            4 => rng.range(1500, 20_000),
+            _ => rng.range(20_000, 100_000),
+        } as usize;
+        c.max(min_chunk)
+    };
+    let w = match rng.below(4) {
+        0 => format!("write:{}", chunk(rng)),
+        1 => format!("all:{}", chunk(rng)),
+        2 => format!("chunks:{}:{}", chunk(rng), rng.range(1, 9)),
+        _ => format!("wchunks:{}:{}", chunk(rng), rng.range(1, 9)),
+    };
+    let r = match rng.below(8) {
+        0..=3 => format!("read:{}", chunk(rng)),
+        4 | 5 => format!("chunk:{}", chunk(rng)),
+        6 => format!("chunks:{}", rng.range(1, 33)),
+        _ => "end".to_string(),
+    };
+    let slow = if rng.chance(1, 4) { rng.range(1, 4) as usize * (len / 4000 + 1) } else { 0 };
+    (len, w, r, slow)
+}
+
+/// a slow reader sleeps 1 ms every `slow` reads: at most ~12 sleeps per stream
+fn bound_slow(slow: usize, len: usize, r: &str) -> usize {
+    if slow == 0 {
+        return 0;
+    }
+    let per_read = r.split(':').nth(1).and_then(|x| x.parse::<usize>().ok()).unwrap_or(1000);
+    let per_read = if r.starts_with("chunks") { per_read * 1000 } else { per_read };
+    slow.max(len / per_read.max(1) / 12)
+}
+
+fn gen_transfer(rng: &mut Rng, idx: usize, thorough: bool) -> Case {
+    let mut lines = vec![];
+    let nstreams = match rng.below(8) {
+        0..=2 => 1,
+        3..=5 => rng.range(2, 6),
+        6 => rng.range(6, 16),
+        _ => rng.range(16, 32),
+    } as usize;
+    let small_windows = rng.chance(1, 2);
+    let srw = if small_windows { *rng.pick(&[1u64, 17, 100, 1024, 4096, 65_536]) } else { 1_250_000 };
+    let rw = if small_windows && rng.chance(1, 2) { *rng.pick(&[64u64, 2048, 16_384, 100_000]) } else { 10_000_000 };
+    let sw = if rng.chance(1, 4) { *rng.pick(&[5_000u64, 20_000, 100_000]) } else { 10_000_000 };
+    let uni = if rng.chance(1, 2) { rng.range(1, 4) } else { 100 };
+    let bi = if rng.chance(1, 2) { rng.range(1, 4) } else { 100 };
+    lines.push(format!("T conn srw={srw} rw={rw} sw={sw} uni={uni} bi={bi}"));
+    // tiny windows make every byte a round trip: keep those payloads short
+    // (an unacknowledged-data window is only released by delayed ACKs: ~25 ms per window)
+    let cap = (srw.min(rw) as usize * 100).min(if sw < 50_000 { (sw as usize * 4).min(30_000) } else { usize::MAX });
+    let mut budget: usize = if thorough { 500_000 } else { 200_000 };
+    for _ in 0..nstreams {
+        let dir = if rng.chance(1, 2) { "c2s" } else { "s2c" };
+        let (mut len, w, r, mut slow) = gen_stream_params(rng, thorough && nstreams <= 4);
+        len = len.min(cap).min(budget);
+        slow = bound_slow(slow, len, &r);
+        budget -= len;
+        let seed = rng.below(1 << 30);
+        if rng.chance(1, 3) {
+            let (mut elen, ew, er, mut eslow) = gen_stream_params(rng, false);
+            elen = elen.min(cap).min(budget);
+            eslow = bound_slow(eslow, elen, &er);
+            budget -= elen;
+            let eseed = rng.below(1 << 30);
+            lines.push(format!(
+                "T bi {dir} len={len} seed={seed} w={w} r={r} slow={slow} elen={elen} eseed={eseed} ew={ew} er={er} eslow={eslow}"
+            ));
+        } else {
+            lines.push(format!("T uni {dir} len={len} seed={seed} w={w} r={r} slow={slow}"));
+        }
+    }
+    if rng.chance(1, 3) {
+        for _ in 0..rng.range(1, 3) {
+            let dir = if rng.chance(1, 2) { "c2s" } else { "s2c" };
+            lines.push(format!(
+                "T dgram {dir} count={} size={} seed={} wait={}",
+                rng.range(1, 40),
+                rng.range(8, 1100),
+                rng.below(1 << 30),
+                rng.below(2)
+            ));
+        }
+    }
+    lines.push("T end".into());
+    Case { name: format!("t{idx}"), lines }
+}
+
+fn gen_close(rng: &mut Rng, idx: usize) -> Case {
+    // streams: k, opener side, kind
+    let nstreams = rng.below(5) as usize;
+    let mut streams = vec![];
+    for k in 0..nstreams {
+        streams.push((k, rng.below(2) as usize, if rng.chance(2, 3) { "bi" } else { "uni" }));
+    }
+    let count = |side: usize, kind: &str| streams.iter().filter(|s| s.1 == side && s.2 == kind).count() as u64;
+    // for each (opener side, kind): either the limit is exhausted (open_* futures can be made pending) or there
+    // is slack (the `open` action works)
+    let mut slack = [[false; 2]; 2];
+    for s in 0..2 {
+        for k in 0..2 {
+            slack[s][k] = rng.chance(1, 2);
+        }
+    }
+    let lim = |side: usize, kind: &str, ki: usize| count(side, kind) + if slack[side][ki] { 8 } else { 0 };
+    let mut lines = vec![format!(
+        "C conn cbi={} cuni={} sbi={} suni={} srw={}",
+        lim(0, "bi", 0),
+        lim(0, "uni", 1),
+        lim(1, "bi", 0),
+        lim(1, "uni", 1),
+        *rng.pick(&[512u64, 2048, 8192])
+    )];
+    let sd = ["c", "s"];
+    for (k, side, kind) in &streams {
+        lines.push(format!("C stream {k} {} {kind}", sd[*side]));
+    }
+    // halves: (stream, side, is_send)
+    let mut free_send: HashSet<(usize, usize)> = HashSet::new();
+    let mut free_recv: HashSet<(usize, usize)> = HashSet::new();
+    for (k, side, kind) in &streams {
+        free_send.insert((*k, *side));
+        free_recv.insert((*k, 1 - *side));
+        if *kind == "bi" {
+            free_send.insert((*k, 1 - *side));
+            free_recv.insert((*k, *side));
+        }
+    }
+    let close_side = rng.below(2) as usize;
+    let close_how = if rng.chance(1, 2) { "conn" } else { "endpoint" };
+    let npend = rng.range(1, 10);
+    let mut has_closed = [false; 2];
+    let mut no_read: HashSet<(usize, usize)> = HashSet::new();
+    // pending futures by (side, kind, stream)
+    let mut pend: Vec<(usize, String, Option<usize>)> = vec![];
+    for _ in 0..npend {
+        let side = rng.below(2) as usize;
+        let kind = *rng.pick(&[
+            "read", "read", "write", "stopped", "reset", "open_uni", "open_bi", "accept_uni", "accept_bi", "recv_dgram",
+            "recv_dgram", "closed", "connecting", "handshake_data", "incoming",
+        ]);
+        match kind {
+            "read" | "reset" => {
+                let mut c: Vec<_> = free_recv.iter().filter(|h| h.1 == side && !no_read.contains(h)).copied().collect();
+                c.sort();
+                if c.is_empty() {
+                    continue;
+                }
+                let h = *rng.pick(&c);
+                free_recv.remove(&h);
+                pend.push((side, kind.into(), Some(h.0)));
+            }
+            "write" | "stopped" => {
+                let mut c: Vec<_> = free_send.iter().filter(|h| h.1 == side).copied().collect();
+                c.sort();
+                if c.is_empty() {
+                    continue;
+                }
+                let h = *rng.pick(&c);
+                // a writer only blocks while the peer does not read: the peer's receive half must not have a
+                // pending read (it would complete with the written data)
+                if kind == "write" {
+                    if !free_recv.contains(&(h.0, 1 - side)) {
+                        continue;
+                    }
+                    no_read.insert((h.0, 1 - side));
+                }
+                free_send.remove(&h);
+                pend.push((side, kind.into(), Some(h.0)));
+            }
+            "open_uni" | "open_bi" => {
+                let ki = if kind == "open_bi" { 0 } else { 1 };
+                if slack[side][ki] {
+                    continue;
+                }
+                pend.push((side, kind.into(), None));
+            }
+            "closed" => {
+                // (waits for the connection to drain, ~100 ms: keep it rare)
+                if has_closed[side] || !rng.chance(1, 3) {
+                    continue;
+                }
+                has_closed[side] = true;
+                pend.push((side, kind.into(), None));
+            }
+            "connecting" | "handshake_data" => {
+                if !(close_how == "endpoint" && side == close_side) {
+                    continue;
+                }
+                pend.push((side, kind.into(), None));
+            }
+            "incoming" => {
+                if !(close_how == "endpoint" && side == 1 && close_side == 1) {
+                    continue;
+                }
+                pend.push((side, kind.into(), None));
+            }
+            _ => pend.push((side, kind.into(), None)),
+        }
+    }
+    for (side, kind, sid) in &pend {
+        match sid {
+            Some(k) => lines.push(format!("C pend {} {kind} {k}", sd[*side])),
+            None => lines.push(format!("C pend {} {kind}", sd[*side])),
+        }
+    }
+    // actions
+    let nacts = rng.below(4);
+    let mut live: Vec<(usize, String, Option<usize>)> = pend.clone();
+    // closing a stream hands a stream credit back to its opener, which completes ONE of the opener's pending
+    // `open_*_wait` futures at a moment that depends on acknowledgements: not generated (the `limit` action
+    // exercises the same `Available` event deterministically)
+    let streams2 = streams.clone();
+    let frees_credit = move |k: usize, live: &Vec<(usize, String, Option<usize>)>| -> bool {
+        let (_, opener, kind) = streams2[k];
+        let op = format!("open_{kind}");
+        live.iter().any(|p| p.0 == opener && p.1 == op)
+    };
+    for _ in 0..nacts {
+        let side = rng.below(2) as usize;
+        let peer = 1 - side;
+        let what = *rng.pick(&["stop", "reset", "finish", "write", "drain", "dgram", "open", "limit"]);
+        match what {
+            "stop" | "drain" => {
+                let mut c: Vec<_> = free_recv.iter().filter(|h| h.1 == side).copied().collect();
+                c.sort();
+                if c.is_empty() {
+                    continue;
+                }
+                let h = *rng.pick(&c);
+                if what == "drain" && !live.iter().any(|p| p.0 == peer && p.1 == "write" && p.2 == Some(h.0)) {
+                    continue;
+                }
+                if what == "stop" && frees_credit(h.0, &live) {
+                    continue;
+                }
+                if what == "stop" {
+                    free_recv.remove(&h);
+                    free_send.remove(&(h.0, peer));
+                    live.retain(|p| !(p.0 == peer && (p.1 == "write" || p.1 == "stopped") && p.2 == Some(h.0)));
+                } else {
+                    live.retain(|p| !(p.0 == peer && p.1 == "write" && p.2 == Some(h.0)));
+                }
+                lines.push(format!("C act {} {what} {}", sd[side], h.0));
+            }
+            "reset" | "finish" | "write" => {
+                let mut c: Vec<_> = free_send.iter().filter(|h| h.1 == side).copied().collect();
+                c.sort();
+                if c.is_empty() {
+                    continue;
+                }
+                let h = *rng.pick(&c);
+                let peer_reset_pending = live.iter().any(|p| p.0 == peer && p.1 == "reset" && p.2 == Some(h.0));
+                if what == "finish" && peer_reset_pending {
+                    continue;
+                }
+                if what != "write" && frees_credit(h.0, &live) {
+                    continue;
+                }
+                if what != "write" {
+                    free_send.remove(&h);
+                    free_recv.remove(&(h.0, peer));
+                }
+                if what == "reset" {
+                    live.retain(|p| !(p.0 == peer && (p.1 == "read" || p.1 == "reset") && p.2 == Some(h.0)));
+                } else {
+                    live.retain(|p| !(p.0 == peer && p.1 == "read" && p.2 == Some(h.0)));
+                }
+                lines.push(format!("C act {} {what} {}", sd[side], h.0));
+            }
+            "dgram" => {
+                if let Some(pos) = live.iter().position(|p| p.0 == peer && p.1 == "recv_dgram") {
+                    live.remove(pos);
+                }
+                lines.push(format!("C act {} dgram", sd[side]));
+            }
+            "open" => {
+                let ki = rng.below(2) as usize;
+                if !slack[side][ki] {
+                    continue;
+                }
+                let kind = ["bi", "uni"][ki];
+                let acc = format!("accept_{kind}");
+                if let Some(pos) = live.iter().position(|p| p.0 == peer && p.1 == acc) {
+                    live.remove(pos);
+                } else {
+                    // an un-accepted stream would complete a later accept at once: only open when someone waits
+                    continue;
+                }
+                lines.push(format!("C act {} open {kind}", sd[side]));
+            }
+            _ => {
+                let ki = rng.below(2) as usize;
+                let kind = ["bi", "uni"][ki];
+                let op = format!("open_{kind}");
+                live.retain(|p| !(p.0 == peer && p.1 == op));
+                lines.push(format!("C act {} limit {kind}", sd[side]));
+            }
+        }
+    }
+    lines.push(format!("C close {} {close_how}", sd[close_side]));
+    Case { name: format!("c{idx}"), lines }
+}
+
+fn dedicated() -> Vec<Case> {
+    let c = |name: &str, lines: &[&str]| Case { name: name.into(), lines: lines.iter().map(|s| s.to_string()).collect() };
+    vec![
+        // one waiter on accepted_0rtt: woken by `Connected`
+        c(
+            "zero-rtt-one-waiter",
+            &["C conn cbi=4 cuni=4 sbi=4 suni=4 zero=1", "C pend s accepted_0rtt", "C act c handshake", "C close s conn"],
+        ),
+        // F160: two tasks wait on the one-slot `on_connected`
+        c(
+            "f160-two-waiters",
+            &[
+                "C conn cbi=4 cuni=4 sbi=4 suni=4 zero=1",
+                "C pend s accepted_0rtt",
+                "C pend s accepted_0rtt",
+                "C act c handshake",
+                "C close s conn",
+            ],
+        ),
+        // F161: a dropped `closed()` future cancels the connection worker
+        c(
+            "f161-cancelled-closed",
+            &[
+                "C conn cbi=4 cuni=4 sbi=4 suni=4",
+                "C stream 0 c bi",
+                "C pend c read 0",
+                "C pend c recv_dgram",
+                "C act c cancelclosed",
+                "C close c endpoint",
+            ],
+        ),
+        // F162: a second `closed()` while the first one waits
+        c(
+            "f162-closed-twice",
+            &["C conn cbi=4 cuni=4 sbi=4 suni=4", "C pend c closed", "C pend c closed", "C close s conn"],
+        ),
+        // `Stopped` must wake the `stopped` AND the `writable` waiter … of two different streams here
+        c(
+            "stop-wakes-both",
+            &[
+                "C conn cbi=2 cuni=0 sbi=0 suni=0 srw=512",
+                "C stream 0 c bi",
+                "C stream 1 c bi",
+                "C pend c write 0",
+                "C pend c stopped 1",
+                "C act s stop 0",
+                "C act s stop 1",
+                "C close c conn",
+            ],
+        ),
+    ]
+}
+
+fn generate(tier: &str, rng: &mut Rng) -> Vec<Case> {
+    let thorough = tier == "thorough";
+    let (nt, nc) = if thorough { (2000, 4000) } else { (200, 450) };
+    let mut cases = dedicated();
+    for i in 0..nt.max(nc) {
+        if i < nt {
+            cases.push(gen_transfer(&mut rng.fork(), i, thorough));
+        }
+        if i < nc {
+            cases.push(gen_close(&mut rng.fork(), i));
+        }
+    }
+    cases
 }
 
 fn main() {
-    let rt = compio_runtime::Runtime::new().unwrap();
-    rt.block_on(async {
-        let (sc, cc) = config_pair(None);
-        let server = Endpoint::server("127.0.0.1:0", sc).await.unwrap();
-        let client = Endpoint::client("127.0.0.1:0").await.unwrap();
-        let addr = server.local_addr().unwrap();
-        // probe 1: two tasks on accepted_0rtt (server side, 0.5-RTT connection)
-        let connecting = client.connect(addr, "localhost", Some(cc.clone())).unwrap();
-        let inc = server.wait_incoming().await.unwrap();
-        let sconn = inc.accept().unwrap().into_0rtt().ok().unwrap();
-        let a = {
-            let c = sconn.clone();
-            compio_runtime::spawn(async move { c.accepted_0rtt().await.is_ok() })
-        };
-        let b = {
-            let c = sconn.clone();
-            compio_runtime::spawn(async move { c.accepted_0rtt().await.is_ok() })
-        };
-        let cconn = connecting.await.unwrap();
-        let ra = timeout(Duration::from_millis(500), a).await;
-        let rb = timeout(Duration::from_millis(500), b).await;
-        println!("probe1 a={:?} b={:?}", ra.map(|r| r.ok()), rb.map(|r| r.ok()));
-
-        // probe 2: closed() dropped -> worker cancelled?
-        {
-            if std::env::var("NOCLOSED").is_err() {
-            let r = timeout(Duration::from_millis(50), cconn.closed()).await;
-            println!("probe2 closed-timeout={:?}", r.is_err());
+    let rt = compio_runtime::Runtime::new().expect("runtime");
+    run_harness(
+        generate,
+        |case: &Case| {
+            let mut ex = Exec::new();
+            let t0 = std::time::Instant::now();
+            let first = case.lines.first().map(|l| l.as_str()).unwrap_or("");
+            let out = if first.starts_with("T ") {
+                ex.tag("family:transfer");
+                rt.block_on(run_transfer(&case.lines, &mut ex))
+            } else if first.starts_with("C ") {
+                ex.tag("family:close");
+                rt.block_on(run_close_case(&case.lines, &mut ex))
+            } else {
+                vec!["bad-op".into(); case.lines.len()]
+            };
+            if std::env::var("C16_TIMING").is_ok() {
+                eprintln!("{:>8.1} ms {} {}", t0.elapsed().as_secs_f64() * 1e3, case.name, case.lines.len());
             }
-            // now is the connection still alive?
-            let mut s = cconn.open_uni().unwrap();
-            use compio_io::AsyncWriteExt;
-            s.write_all(b"hello".to_vec()).await.0.unwrap();
-            s.finish().unwrap();
-            let r = timeout(Duration::from_millis(1000), sconn.accept_uni()).await;
-            println!("probe2 accept after cancelled closed(): {:?}", r.map(|r| r.is_ok()));
-            if std::env::var("NOCLOSED").is_ok() {
-                let c1 = cconn.clone();
-                let t1 = compio_runtime::spawn(async move { let _ = c1.closed().await; });
-                sleep(Duration::from_millis(20)).await;
-                let c2 = cconn.clone();
-                let t2 = compio_runtime::spawn(async move { let _ = c2.closed().await; });
-                sleep(Duration::from_millis(20)).await;
-                let r2 = timeout(Duration::from_millis(100), t2).await;
-                println!("probe3 second closed(): {:?}", r2.map(|r| r.is_err()));
-                drop(t1);
+            let mut kinds: BTreeMap<&str, usize> = BTreeMap::new();
+            for l in &case.lines {
+                let mut it = l.split_whitespace();
+                it.next();
+                if let Some(k) = it.next() {
+                    *kinds.entry(k).or_insert(0) += 1;
+                }
             }
-        }
-        sleep(Duration::from_millis(10)).await;
-    });
+            for (k, _) in kinds {
+                ex.tag(format!("op:{k}"));
+            }
+            ex.nontrivial = case.lines.len() >= 3 && !out.iter().any(|o| o.starts_with("error") || o == "bad-op");
+            ex.out = out;
+            ex
+        },
+        "a case is non-trivial if it has at least one activity / pending future besides conn and end/close, and every line was executed on the real endpoints (no setup error)",
+    );
 }
